@@ -207,6 +207,7 @@ func emitFunc(out *output, p *pkgInfo, d *directive) {
 	for pass := 0; pass < 2; pass++ {
 		f = newCtx(out, p, d)
 		f.declare(fd, nil)
+		f.checkRecUses(fd) // structs.go
 		if pass == 1 {
 			f.frozen = true
 			for _, pp := range paths {
